@@ -33,6 +33,9 @@ var wordPool = map[string][]string{
 	"semver":     {"alpha", "beta", "rc", "a", "b", "RC"},
 }
 
+// BigOK: ecosystems whose parsers accept digit runs beyond 64 bits.
+var BigOK = map[string]bool{"alpm": true, "conan": true, "debian": true, "gem": true, "maven": true, "rpm": true}
+
 // tail pieces that may be appended to (or removed from) a version.
 var tailPool = map[string][]string{
 	"alpine":     {".0", ".1", "a", "_alpha", "_alpha1", "_beta2", "_pre", "_rc1", "_p", "_p1", "_git1", "_cvs", "-r0", "-r1", "-r2", "~abc", "_foo"},
@@ -77,7 +80,7 @@ func mutateOnce(t *rapid.T, e eco.Eco, v, l string) string {
 			return v
 		}
 		i := idx[rapid.IntRange(0, len(idx)-1).Draw(t, l+"ni")]
-		switch rapid.IntRange(0, 5).Draw(t, l+"nk") {
+		switch rapid.IntRange(0, 7).Draw(t, l+"nk") {
 		case 0, 1:
 			toks[i] = incDec(toks[i], true)
 		case 2:
@@ -86,6 +89,20 @@ func mutateOnce(t *rapid.T, e eco.Eco, v, l string) string {
 			toks[i] = "0" + toks[i]
 		case 4:
 			toks[i] = Pick(t, l+"nv", boundary...)
+		case 5:
+			// numbers beyond 64 bits and long zero-padded runs, where the parser keeps digit strings
+			if BigOK[e.Name] {
+				toks[i] = Pick(t, l+"nv", bigRuns...)
+			} else {
+				toks[i] = Pick(t, l+"nv", small...)
+			}
+		case 6:
+			// the same value with a long run of leading zeros
+			if BigOK[e.Name] {
+				toks[i] = "00000000000000000000" + toks[i]
+			} else {
+				toks[i] = "00" + toks[i]
+			}
 		default:
 			toks[i] = Pick(t, l+"nv", small...)
 		}
